@@ -1,7 +1,7 @@
 SPECIFICATION Spec
 CONSTANTS
   MaxLen = 2
-  CPs = {"Q", "G", "T", "QG"}
+  CPs = {"Q", "G", "T", "QG", "LL"}
   Errs = {"E2", "EG", "EQG"}
 INVARIANTS Emit ShortcutsEqualBasics OrderIndependent NoDupWhenValid CountPerInstr
 CHECK_DEADLOCK FALSE
